@@ -633,17 +633,21 @@ class V : public RecursiveASTVisitor<V> {
             *OS << "null";
           *OS << ",\"succ\":[";
           bool fs = true;
+          std::string unr;   // positions of successors clang marks infeasible (constant condition, if constexpr)
+          unsigned pos = 0;
           for (auto Sc : Bk->succs()) {
             if (!fs) *OS << ",";
             fs = false;
             if (Sc.getReachableBlock())
               *OS << Sc.getReachableBlock()->getBlockID();
-            else if (Sc.getPossiblyUnreachableBlock())
+            else if (Sc.getPossiblyUnreachableBlock()) {
               *OS << Sc.getPossiblyUnreachableBlock()->getBlockID();
-            else
+              unr += (unr.empty() ? "" : ",") + std::to_string(pos);
+            } else
               *OS << "null";
+            pos++;
           }
-          *OS << "],\"noret\":" << B(Bk->hasNoReturnElement()) << "}";
+          *OS << "],\"unr\":[" << unr << "],\"noret\":" << B(Bk->hasNoReturnElement()) << "}";
         }
         *OS << "]}";
       }
